@@ -64,7 +64,8 @@ def parse_line(line):
         r["site"] = d["site"]
         r["early"] = d["early"] == "1"
         return r
-    r.update({"d": int(d["d"]), "v": int(d["v"]), "mode": d["mode"], "dseed": int(d["dseed"])})
+    r.update({"d": int(d["d"]), "v": int(d["v"]), "mode": d["mode"], "dseed": int(d["dseed"]),
+              "oau": int(d.get("oau", "0")), "oac": int(d.get("oac", "0"))})
     r["batch"] = [[parse_scene_res(sc) for sc in b.split("|") if sc] for b in d["batch"].split("/")] if d["batch"] else []
     simple = {}
     if d["simple"] and d["simple"] != "PANIC":
@@ -81,7 +82,8 @@ def parse_line(line):
 def case_text(r):
     if r["type"] == "probe":
         return "kind=%s site=%s hist=%s" % (r["kind"], r["site"], enc_hist(r["hist"]))
-    return "kind=%s d=%d v=%d mode=%s dseed=%d hist=%s" % (r["kind"], r["d"], r["v"], r["mode"], r["dseed"], enc_hist(r["hist"]))
+    return "kind=%s d=%d v=%d mode=%s dseed=%d oau=%d oac=%d hist=%s" % (
+        r["kind"], r["d"], r["v"], r["mode"], r["dseed"], r["oau"], r["oac"], enc_hist(r["hist"]))
 
 
 # ---------------------------------------------------------------------------------------------------------
@@ -384,6 +386,8 @@ def run(chk):
             hist["%s d=%d v=%d" % (r["kind"], r["d"], r["v"])] += 1
             hist["mode=" + r["mode"]] += 1
             hist["batches=%d" % len(r["hist"])] += 1
+            if r["kind"] == "visual":
+                hist["own_area use=%s collect=%s" % ("on" if r["oau"] else "off", "on" if r["oac"] else "off")] += 1
             if any(len(b) >= 2 for b in r["hist"]) and r["v"] >= 2 and nonserial(r):
                 nontrivial.add(case_text(r))
         bad = oracle(r)
